@@ -84,13 +84,14 @@ _Z = "i1 == 0 and j1 == 0 and f1 == 0 and g1 == 0 and n1 == False and m1 == Fals
                                     ("shape2b", "shape == 2 and n1 == True and m1 == False and i1 == 0 and j1 == 0 and f1 == 0 and g1 == 0"),
                                     ("shape2c", "shape == 2 and m1 == True and i1 == 0 and j1 == 0 and f1 == 0 and g1 == 0"),
                                     ("shape4", "shape == 4 and len(s2) == 0 and len(t2) == 0 and -1 <= i1 <= 1 and -1 <= j1 <= 1 and f1 == 0 and g1 == 0")]},
-                "thorough": {"timeout": 1500, "pre": ["len(s1) <= 5 and len(s2) <= 4 and len(t1) <= 5 and len(t2) <= 4"],
-                             "parts": [("shape0", "shape == 0 and " + _Z),
-                                       ("shape1", "shape == 1 and len(s2) == 0 and len(t2) == 0 and -2 <= i1 <= 12 and -2 <= j1 <= 12 and f1 == 0 and g1 == 0 and n1 == False and m1 == False"),
-                                       ("shape2", "shape == 2 and i1 == 0 and j1 == 0 and f1 == 0 and g1 == 0"),
-                                       ("shape4", "shape == 4 and len(s2) == 0 and len(t2) == 0 and -1 <= i1 <= 9 and -1 <= j1 <= 9 and f1 == 0 and g1 == 0")]}},
+                # (thorough partitions fix the lengths of the two first fields: a partition must exhaust within ~600 s)
+                "thorough": {"timeout": 600, "pre": ["len(s2) <= 3 and len(t2) <= 3"],
+                             "parts": [(f"shape0_l{a}{b}", f"shape == 0 and len(s1) == {a} and len(t1) == {b} and " + _Z) for a in range(5) for b in range(5)] +
+                                      [(f"shape1_l{a}{b}", f"shape == 1 and len(s1) == {a} and len(t1) == {b} and len(s2) == 0 and len(t2) == 0 and -2 <= i1 <= 12 and -2 <= j1 <= 12 and f1 == 0 and g1 == 0 and n1 == False and m1 == False") for a in range(5) for b in range(5)] +
+                                      [(f"shape2_l{a}{b}_{int(n)}{int(m)}", f"shape == 2 and len(s1) == {a} and len(t1) == {b} and n1 == {n} and m1 == {m} and i1 == 0 and j1 == 0 and f1 == 0 and g1 == 0") for a in range(4) for b in range(4) for n in (False, True) for m in (False, True)] +
+                                      [(f"shape4_l{a}{b}", f"shape == 4 and len(s1) == {a} and len(t1) == {b} and len(s2) == 0 and len(t2) == 0 and -1 <= i1 <= 9 and -1 <= j1 <= 9 and f1 == 0 and g1 == 0") for a in range(4) for b in range(4)]}},
          sample=(0, "x b=y", "z", 0, 0, False, "x", "y b=z", 0, 0, False),
-         bounds="param-class shapes (str,str) (str,int) (Optional[str],str) (Optional[str],Optional[int]); SYMBOLIC strings of length <= 3 / <= 2 per field (quick), <= 5 / <= 4 (thorough) over printable ASCII without quotes and backslash; small ints; None flags",
+         bounds="param-class shapes (str,str) (str,int) (Optional[str],str) (Optional[str],Optional[int]); SYMBOLIC strings of length <= 3 / <= 2 per field (quick), <= 4 / <= 3 (thorough) over printable ASCII without quotes and backslash; small ints; None flags",
          generalises="parameter strings as symbolic strings (spaces, '=', any printable character)", outside="strings with quotes / backslashes / non-ASCII (see name_injective_enum); longer strings; names past the 128-character switch (md5 of JSON: collision-freeness of md5 is assumed)")
 def name_injective(shape, s1, s2, i1, f1, n1, t1, t2, j1, g1, m1):
     return _inj(shape, s1, s2, i1, f1, n1, t1, t2, j1, g1, m1)
@@ -108,7 +109,9 @@ def _word(code):
          pre=["0 <= shape <= 4", "0 <= c1 < 100", "0 <= c2 < 100", "0 <= d1 < 100", "0 <= d2 < 100", "-1 <= i1 <= 2", "-1 <= j1 <= 2"],
          tiers={"quick": {"timeout": 170, "pre": ["c2 == 59 and (d2 == 59 or d2 == 85 or d2 == 89)", "c1 % 10 == 9 or c1 >= 90", "d1 % 10 == 9 or d1 >= 90", "i1 == 0 and j1 == 0 and n1 == False and m1 == False"],
                           "parts": parts_over("shape", range(5))},
-                "thorough": {"timeout": 1500, "pre": ["c2 % 10 == 9 and d2 % 10 == 9"], "parts": parts_product(parts_over("shape", range(5)), [("c%d" % k, "c1 // 10 == %d" % k) for k in range(10)])}},
+                "thorough": {"timeout": 600, "pre": ["c2 % 10 == 9 and d2 % 10 == 9", "i1 == 0 and j1 == 0"],
+                             "parts": [(f"shape{sh}_c{c}_{k}_{int(n)}{int(m)}", f"shape == {sh} and c1 == {c} and c2 == {10 * k + 9} and n1 == {n} and m1 == {m}")
+                                       for sh in range(5) for c in range(100) for k in range(10) for n in (False, True) for m in (False, True)]}},
          sample=(0, 3, 59, 39, 59, 0, 0, False, False),
          bounds="the same injectivity over ENUMERATED adversarial strings: two-letter words over {', \", backslash, space, =, a, 'None', newline, non-ASCII, empty}; all 5 shapes incl. (int,float) with quarter-step floats; solver-enumerated, run concretely",
          generalises="selectors only", outside="")
